@@ -10,11 +10,36 @@ Proof. apply adv_length. Qed.
 
 Ltac dres x := destruct x as [[| |?e] ?c ?evs| |].
 
-(* heads whose trait is the trait of ANOTHER rule under the own name (if_apply, until< Cond >) or names rules that
-   are not sub-rules of the node (if_must) are not covered by the soundness proof yet *)
-Definition head_covered (h : head) : bool :=
+(* heads whose trait is their own: not if_apply / until< Cond > (the trait of ANOTHER rule stored under the own name,
+   handled by following eff) and not if_must (names rules that are not sub-rules of the node) *)
+Definition head_direct (h : head) : bool :=
   match h with HIfApply _ | HUntil1 | HIfMust _ => false | _ => true end.
-Definition heads_covered (G : grammar) : bool := forallb (fun nd => head_covered (nhead nd)) G.
+(* shape of if_must nodes as the compiler produces them: subs_t = < Cond, internal::must< Rules... > >, where
+   internal::must< R > is the class must, internal::must< R1, R2, ... > is internal::seq< must< R1 >, must< R2 >, ... >,
+   internal::must<> is success - all of them classes with enable_control = false (no action can veto them) *)
+Definition plain_must (G : grammar) (m : rid) : bool :=
+  match nth_error G m with
+  | Some nd => negb (nenabled nd) && match nhead nd, nsubs nd with HMust, [_] => true | _, _ => false end
+  | None => false
+  end.
+Definition must_helper_ok (G : grammar) (m : rid) : bool :=
+  match nth_error G m with
+  | Some nd => negb (nenabled nd) &&
+      match nhead nd, nsubs nd with
+      | HMust, [_] => true
+      | HSeq, ms => forallb (plain_must G) ms
+      | HSuccess, [] => true
+      | _, _ => false
+      end
+  | None => false
+  end.
+Definition node_shape_ok (G : grammar) (nd : node) : bool :=
+  match nhead nd, nsubs nd with
+  | HIfMust _, [_; m] => must_helper_ok G m
+  | HIfMust _, _ => false
+  | _, _ => true
+  end.
+Definition table_shape_ok (G : grammar) : bool := forallb (node_shape_ok G) G.
 
 (* ---------- height-indexed form of okw (for nested inversion) ---------- *)
 Section Height.
@@ -313,22 +338,19 @@ Proof.
 Qed.
 End EvFacts.
 
-(* ---------- the entries of covered nodes ---------- *)
+(* ---------- the entries of a node, through eff ---------- *)
 Section Table.
 Variable G : grammar.
-Hypothesis Hcov : heads_covered G = true.
 
-Lemma covered_node r nd : nth_error G r = Some nd -> head_covered (nhead nd) = true.
+Lemma ent_main_eff (r : rid) h0 subs0 : eff G (eff_fuel G) r = Some (h0, subs0) -> aentry G (rl r) = main_entry G r h0 subs0.
+Proof. intros H. unfold aentry, rl. rewrite H. reflexivity. Qed.
+Lemma ent_syn_eff (r : rid) h0 subs0 k : eff G (eff_fuel G) r = Some (h0, subs0) -> aentry G (r, S k) = syn_entry G r h0 subs0 (S k).
+Proof. intros H. unfold aentry. rewrite H. reflexivity. Qed.
+Lemma ent_bad_eff (r : rid) : eff G (eff_fuel G) r = None -> aentry G (rl r) = e_bad r.
+Proof. intros H. unfold aentry, rl. rewrite H. reflexivity. Qed.
+
+Lemma shape_node r nd : table_shape_ok G = true -> nth_error G r = Some nd -> node_shape_ok G nd = true.
 Proof.
-  intros H. unfold heads_covered in Hcov. rewrite forallb_forall in Hcov. apply Hcov. eapply nth_error_In; eauto.
+  intros Hcov H. unfold table_shape_ok in Hcov. rewrite forallb_forall in Hcov. apply Hcov. eapply nth_error_In; eauto.
 Qed.
-Lemma eff_node r nd : nth_error G r = Some nd -> eff G (eff_fuel G) r = Some (nhead nd, nsubs nd).
-Proof.
-  intros H. pose proof (covered_node r nd H) as K. unfold eff_fuel. cbn [eff]. rewrite H.
-  destruct (nhead nd); try discriminate K; reflexivity.
-Qed.
-Lemma ent_main r nd : nth_error G r = Some nd -> aentry G (rl r) = main_entry G r (nhead nd) (nsubs nd).
-Proof. intros H. unfold aentry, rl. rewrite (eff_node r nd H). reflexivity. Qed.
-Lemma ent_syn (r : rid) nd k : nth_error G r = Some nd -> aentry G (r, S k) = syn_entry G r (nhead nd) (nsubs nd) (S k).
-Proof. intros H. unfold aentry. rewrite (eff_node r nd H). reflexivity. Qed.
 End Table.
